@@ -91,6 +91,18 @@ def _standin(rep, tier, seed):
                     rep.violation("heat of integer-valued diagrams given as %s/%s = %r but sqrt(k(F,F)+k(G,G)-2k(F,G)) = %r (F=%s, G=%s, sigma=%s)" % (form[0], form[1], dt, math.sqrt(wsq), Fi, Gi, s),
                                   "heat:value:typed", {"input": {"dgm1": Fi, "dgm2": Gi, "sigma": s, "forms": list(form)}, "observed": dt, "expected_squared": wsq})
                     break
+        if it % 7 == 0:
+            # sigma in every numeric spelling of the same value
+            sv = rng.choice([1, 2, 3])
+            want_i = max(_sq_oracle(F, G, float(sv)), 0.0)
+            acc_s = 64 * 2.3e-16 * (len(F) + len(G) + 1) ** 2 / (8 * math.pi * sv)
+            for spell in (sv, float(sv), np.int64(sv), np.int32(sv), np.float32(sv), np.array(float(sv))):
+                ds_ = _heat(F, G, spell)
+                evals += 1
+                if ds_ != ds_ or abs(ds_ * ds_ - want_i) > acc_s + 1e-6 * abs(want_i):
+                    rep.violation("heat(F, G, sigma=%r of type %s) = %r but sqrt(k(F,F)+k(G,G)-2k(F,G)) = %r" % (spell, type(spell).__name__, ds_, math.sqrt(want_i)), "heat:value:sigma-type",
+                                  {"input": {"dgm1": F, "dgm2": G, "sigma": repr(spell), "sigma_type": type(spell).__name__}, "observed": ds_, "expected_squared": want_i})
+                    break
         # reordering of the same multiset
         if F:
             Fp = F[:]
